@@ -533,7 +533,8 @@ def eval_terms(tag, header, terms, max_chars=24000, max_terms=500, timeout=900):
         path = os.path.join(cases_dir, name + ".v")
         with open(path, "w", encoding="utf-8") as f:
             f.write(header + "\nEval vm_compute in (render_lines [\n%s\n]).\n" % ";\n".join(batch))
-        p = subprocess.run(["timeout", str(timeout), "coqc", "-Q", ".", "V", "-w", "none", os.path.join("Cases", name + ".v")],
+        p = subprocess.run(["bash", "-c", "ulimit -s unlimited 2>/dev/null || ulimit -s 1000000; exec timeout %d coqc -Q . V -w none %s"
+                            % (timeout, os.path.join("Cases", name + ".v"))],
                            cwd=common.COQ, stdout=subprocess.PIPE, stderr=subprocess.PIPE, text=True)
         for ext in (".v", ".vo", ".vok", ".vos", ".glob"):
             try:
